@@ -121,3 +121,14 @@ def breaker_symbolic(tier: str) -> dict:
         cross += [{"THR": t, "W": w, "R": 2, "CTHR": ct, "KTRIP": "TRUE" if (t + w + ct) % 2 else "FALSE"}
                   for t in (1, 3) for w in (1, 4) for ct in (0, 2)]
     return symbolic("BreakerInd", mutants=muts, cross=cross)
+
+
+def caps_symbolic(tier: str) -> dict:
+    muts = {"per-class-cap-off-by-one": ("CappedP(lim, c1) == lim # -1 /\\ c1 > lim ",
+                                         "CappedP(lim, c1) == lim # -1 /\\ c1 > lim + 1 "),
+            "global-cap-off-by-one": ("LateMustP(maxatt, a) == a >= maxatt", "LateMustP(maxatt, a) == a > maxatt")}
+    if tier != "quick":
+        muts.update({
+            "non-retryable-retried": ("CappedP(lim, c1) \\/ k = \"P\" \\/ (k = \"U\"", "CappedP(lim, c1) \\/ (k = \"U\""),
+            "unknown-cap-off-by-one": ("maxunk # -1 /\\ u1 > maxunk)", "maxunk # -1 /\\ u1 > maxunk + 1)")})
+    return symbolic("CapsInd", mutants=muts, cross=[{}])
